@@ -27,10 +27,10 @@ def post_validate_impl(work, st):
     open(vp, "w").write("\n".join(vals) + ("\n" if vals else ""))
     run_runner(vp, os.path.join(work, "val_out.txt"))
     outs = open(os.path.join(work, "val_out.txt")).read().splitlines()
-    bad = [idx[j] for j, o in enumerate(outs) if o.strip() != "val 1"]
+    bad = [idx[j] for j, o in enumerate(outs) if o.strip() != "val 1 wf 1"]
     st["validated_impl_tapes"] = len(outs) - len(bad)
     st["validator_rejects"] = len(bad)
-    return [("validator", k, "Validate.check_alloc rejects the implementation's register tape") for k in bad]
+    return [("validator", k, "Validate.check_alloc / SsaWf.ssa_wf rejects the implementation's tapes") for k in bad]
 
 
 # ------------------------------------------------------------------ generic flow
